@@ -138,8 +138,9 @@ class SimHandle:
     read1 = read
 
     def readinto(self, b):
-        data = self.read(len(b))
-        b[:len(data)] = data
+        mv = memoryview(b).cast("B")
+        data = self.read(len(mv))
+        mv[:len(data)] = data
         return len(data)
 
     def peek(self, n=0):
@@ -230,8 +231,14 @@ class SimHandle:
         self.close()
 
     def __del__(self):
-        # no implicit durability on garbage collection: an unclosed writer loses its tail,
-        # but never log from a finaliser (would perturb the event log nondeterministically)
+        # CPython closes (and thereby flushes) a file object when its last reference goes away, and the library
+        # relies on that when it writes index files (`bnp_open(fai, "w").write(index)` without close): make the
+        # data durable, but never log from a finaliser (it would perturb the event log)
+        try:
+            if not self.closed and self.writable():
+                self.fs.files[self.name] = bytes(self._buf)
+        except Exception:
+            pass
         self.closed = True
 
 
